@@ -366,6 +366,11 @@ class Unit:
             newname = opts["name"]
             edits.append(Edit(ns, ne, lambda r: newname))
             self.log("R5", relfile, src, ns, f"{path} emitted as `{newname}`")
+        # R14: wildcard parameters get a name (Verus requires plain identifier patterns)
+        for k_, prm in enumerate(it["params"]):
+            if prm["name"] == "_" and "ty" in prm:
+                edits.append(Edit(prm["span"][0], prm["ty"][0], lambda r, k_=k_: f"_p{k_}: "))
+                self.log("R14", relfile, src, prm["span"][0], f"{path}: parameter `_` named `_p{k_}`")
         # named return
         if it["ret"]:
             rs, re_ = it["ret"]
@@ -376,7 +381,7 @@ class Unit:
 
         body = it["body"]
         ext_body = "ext_body" in opts
-        if body is None and not ext_body:
+        if body is None and not ext_body and not it["trait_def"]:
             raise Unsupported(f"{where}: function has no body")
 
         vac_texts = {}
@@ -529,6 +534,8 @@ class Unit:
                               "tpl": corigin, "text": ctext.strip()})
         if ext_body:
             self.emit("{ unimplemented!() }\n", origin_sig)
+        elif it["body"] is None:
+            self.emit(";\n", origin_sig)
         else:
             bs, be = it["body"]
             btxt = r.render(bs, be)
@@ -539,6 +546,7 @@ class Unit:
             "sha256": hashlib.sha256(src[s:e]).hexdigest(),
             "src_line": line_of(src, sig_s),
             "emitted_as": opts.get("name"),
+            "decl": it["body"] is None and not ext_body,
         })
 
     # ------------------------------------------------------------------
